@@ -139,23 +139,69 @@ Definition bmul (x y : bint) : bint :=
               (seq s (S (Nat.min (S BINT_SIZE - i) e) - s)) z)
     (seq s (S e - s)) bint_zero.
 
-Fixpoint shlone_rev (rx : bint) : bint :=
-  (* rx = limbs from most significant; self[i] = ((self[i] << 1) | (self[i-1] >> (w-1))) & MAX *)
-  match rx with
-  | [] => []
-  | [a] => [lband (lshl a 1) BINT_WORDMAX]
-  | a :: ((b :: _) as r) =>
-      lband (lbor (lshl a 1) (lshr b (lsub BINT_WORDBITS 1))) BINT_WORDMAX :: shlone_rev r
-  end.
-Definition shlone (x : bint) : bint := rev (shlone_rev (rev x)).
-
-Fixpoint shrone (x : bint) : bint :=
+(* _shlone and the bit loop of __shl are the same loop (y = 1 resp. 0 < y < WORDBITS):
+     for i=SIZE,2,-1: x[i] = ((x[i] << y) | (x[i-1] >> (WORDBITS-y))) & WORDMAX;  x[1] = (x[1] << y) & WORDMAX
+   descending, so x[i-1] is still the old limb: [prev] carries it along the little-endian list. *)
+Fixpoint shl_loop (y : Z) (prev : Z) (x : bint) : bint :=
   match x with
   | [] => []
-  | [a] => [lshr a 1]
-  | a :: ((b :: _) as r) =>
-      lband (lbor (lshr a 1) (lshl b (lsub BINT_WORDBITS 1))) BINT_WORDMAX :: shrone r
+  | a :: r => lband (lbor (lshl a y) (lshr prev (lsub BINT_WORDBITS y))) BINT_WORDMAX :: shl_loop y a r
   end.
+Definition shl_small (y : Z) (x : bint) : bint :=
+  match x with
+  | [] => []
+  | a :: r => lband (lshl a y) BINT_WORDMAX :: shl_loop y a r
+  end.
+Definition shlone (x : bint) : bint := shl_small 1 x.
+
+(* _shrone / bit loop of __shr: ascending, x[i+1] is still the old limb; the last limb is x[SIZE] >> y *)
+Fixpoint shr_small (y : Z) (x : bint) : bint :=
+  match x with
+  | [] => []
+  | [a] => [lshr a y]
+  | a :: ((b :: _) as r) =>
+      lband (lbor (lshr a y) (lshl b (lsub BINT_WORDBITS y))) BINT_WORDMAX :: shr_small y r
+  end.
+Definition shrone (x : bint) : bint := shr_small 1 x.
+
+(* _shlwords(n): limbs move up by n, the low n limbs become 0 (n >= SIZE leaves n zero limbs,
+   the Lua table then has extra indices; only called with n < SIZE) *)
+Definition shlwords (x : bint) (n : nat) : bint := repeat 0 n ++ firstn (BINT_SIZE - n) x.
+Definition shrwords (x : bint) (n : nat) : bint :=
+  if (n <? BINT_SIZE)%nat then skipn n x ++ repeat 0 n else repeat 0 BINT_SIZE.
+
+(* y // BINT_WORDBITS and y % BINT_WORDBITS: BINT_WORDBITS is a non-zero constant
+   (Proofs.wordbits_pos), so the Lua operators never raise; see ProofsBits.idiv_wb_lidiv *)
+Definition idiv_wb (y : Z) : Z := wrap64 (y / BINT_WORDBITS).
+Definition imod_wb (y : Z) : Z := y mod BINT_WORDBITS.
+
+(* body of __shl after the guards: 0 <= y < BITS *)
+Definition shl_pos (x : bint) (y : Z) : bint :=
+  let nvals := idiv_wb y in
+  let x1 := if nvals =? 0 then x else shlwords x (Z.to_nat nvals) in
+  let y1 := if nvals =? 0 then y else lsub y (lmul nvals BINT_WORDBITS) in
+  if y1 =? 0 then x1 else shl_small y1 x1.
+Definition shr_pos (x : bint) (y : Z) : bint :=
+  let nvals := idiv_wb y in
+  let x1 := if nvals =? 0 then x else shrwords x (Z.to_nat nvals) in
+  let y1 := if nvals =? 0 then y else lsub y (lmul nvals BINT_WORDBITS) in
+  if y1 =? 0 then x1 else shr_small y1 x1.
+
+(* if y == math_mininteger or math_abs(y) >= BINT_BITS then return bint_zero() *)
+Definition shift_guard (y : Z) : bool := (y =? minint) || (BINT_BITS <=? labs y).
+
+(* __shl and __shr call each other for negative counts (x >> -y); the recursion is at most one
+   level deep, fuel 2 is given and None is the (unreachable) exhaustion value *)
+Fixpoint shift_fuel (fuel : nat) (left : bool) (x : bint) (y : Z) : option bint :=
+  match fuel with
+  | O => None
+  | S f =>
+      if shift_guard y then Some bint_zero
+      else if y <? 0 then shift_fuel f (negb left) x (lneg y)
+      else Some (if left then shl_pos x y else shr_pos x y)
+  end.
+Definition bshl (x : bint) (y : Z) : option bint := shift_fuel 2 true x y.
+Definition bshr (x : bint) (y : Z) : option bint := shift_fuel 2 false x y.
 
 (* ---------- specification side ---------- *)
 Definition Wd : Z := 2 ^ BINT_WORDBITS.
